@@ -1688,7 +1688,7 @@ class KnowlesRTransform(BaseTransform):
             One dimensional array in :math:`[r_{min},\infty)`\.
 
         """
-        rf_array = -self._R * np.log(1 - (2**-self._k) * (x + 1) ** self._k) + self._rmin
+        rf_array = -self._R * np.log(1 - ((x + 1) / 2) ** self._k) + self._rmin
         if self.trim_inf:
             rf_array = self._convert_inf(rf_array)
         return rf_array
